@@ -61,6 +61,8 @@ class _RedisConsumer(ConsumerT):
     async def finish(self) -> None:
         if self.consume_task is not None:
             self.consume_task.cancel()
+            # let the background task hand back a message it has taken but not yet queued
+            await asyncio.gather(self.consume_task, return_exceptions=True)
         rejects = []
         while self.queue.qsize() > 0:
             key, _, _ = self.queue.get_nowait()
@@ -75,9 +77,21 @@ class _RedisConsumer(ConsumerT):
             if self.pause_lock.locked():
                 await self.pause_lock.acquire()
                 self.pause_lock.release()
-            msg = await self.consume_or_none()
+            # a fetch marks the message as processing on the server, so it must not be abandoned
+            # half-way: on cancellation let it complete and return the message to the broker
+            fetch = asyncio.ensure_future(self.consume_or_none())
+            try:
+                msg = await asyncio.shield(fetch)
+            except asyncio.CancelledError:
+                if (msg := await fetch) is not None:
+                    await self.broker.reject(msg[0])
+                raise
             if msg is not None:
-                await self.queue.put(msg)
+                try:
+                    await self.queue.put(msg)
+                except asyncio.CancelledError:
+                    await self.broker.reject(msg[0])
+                    raise
             else:
                 await asyncio.sleep(self.POLLING_WAIT)
 
